@@ -7,14 +7,23 @@ type EventFn[T any] func(data T)
 type Unsubscribe func()
 
 type subscriber[T any] struct {
-	id int
-	fn EventFn[T]
+	id       int
+	fn       EventFn[T]
+	delivery *delivery
+}
+
+// delivery orders the notifications of one subscriber: they run one at a time, and a
+// notification that is overtaken by a newer one is dropped instead of being delivered late.
+type delivery struct {
+	mu      sync.Mutex
+	lastSeq uint64 // sequence number of the newest notification delivered so far
 }
 
 type Event[T any] struct {
-	mu          sync.RWMutex // protects subscribers and nextID
+	mu          sync.RWMutex // protects subscribers, nextID and seq
 	subscribers []subscriber[T]
 	nextID      int
+	seq         uint64 // number of Fire calls so far
 }
 
 func New[T any]() *Event[T] {
@@ -28,7 +37,7 @@ func (e *Event[T]) Subscribe(fn EventFn[T]) Unsubscribe {
 
 	id := e.nextID
 	e.nextID++
-	e.subscribers = append(e.subscribers, subscriber[T]{id: id, fn: fn})
+	e.subscribers = append(e.subscribers, subscriber[T]{id: id, fn: fn, delivery: &delivery{}})
 	return func() {
 		e.mu.Lock()
 		defer e.mu.Unlock()
@@ -46,12 +55,25 @@ func (e *Event[T]) Subscribe(fn EventFn[T]) Unsubscribe {
 // Fires the event, notifying all subscribers with the provided data.
 // NOTE: The subscribers are notified in separate goroutines,
 // so be aware of potential race conditions.
+// The goroutines of back-to-back Fire calls may run in any order; a subscriber never
+// receives an older value after a newer one, so it always ends up with the latest.
 func (e *Event[T]) Fire(data T) {
-	e.mu.RLock()
+	e.mu.Lock()
+	e.seq++
+	seq := e.seq
 	subscribers := append([]subscriber[T](nil), e.subscribers...)
-	e.mu.RUnlock()
+	e.mu.Unlock()
 
 	for _, subscriber := range subscribers {
-		go subscriber.fn(data)
+		go func() {
+			d := subscriber.delivery
+			d.mu.Lock()
+			defer d.mu.Unlock()
+			if seq < d.lastSeq {
+				return // overtaken by a newer notification
+			}
+			d.lastSeq = seq
+			subscriber.fn(data)
+		}()
 	}
 }
